@@ -44,6 +44,35 @@ func Equal(a, b any) bool { //nolint: gocyclo
 			}
 		}
 		return true
+	case reflect.Map:
+		// maps are equal when they hold equal values under the same keys, whatever their Go types
+		// (map[string]int against map[string]any, elements of another width or behind a Drop)
+		if ra.Type() == rb.Type() && ra.UnsafePointer() == rb.UnsafePointer() {
+			return true
+		}
+		if ra.Len() != rb.Len() {
+			return false
+		}
+		for _, ka := range ra.MapKeys() {
+			k := ka
+			if k.Kind() == reflect.Interface && !k.IsNil() {
+				k = k.Elem()
+			}
+			if k.Kind() != reflect.Interface { // a nil interface key is looked up as it is
+				kb, ok := mapKey(k, rb.Type().Key())
+				if !ok {
+					return false
+				}
+				k = kb
+			} else if !k.Type().AssignableTo(rb.Type().Key()) {
+				return false
+			}
+			vb := rb.MapIndex(k)
+			if !vb.IsValid() || !Equal(ra.MapIndex(ka).Interface(), vb.Interface()) {
+				return false
+			}
+		}
+		return true
 	case reflect.Bool:
 		return ra.Bool() == rb.Bool()
 	case reflect.Int, reflect.Int8, reflect.Int16, reflect.Int32, reflect.Int64,
